@@ -69,6 +69,14 @@ func init() {
 		NotCovered: "ReadStates (several syscalls check it dynamically), Manifest.CanCall matching semantics beyond the method-list clause, group membership data",
 	})
 	register(&PropertySpec{
+		ID: "C15",
+		Rules: []RuleSpec{
+			{"cond-tables", "each witness-condition kind is reported by exactly one type; the binary, stack-item and JSON decoders have an arm for every kind constructing that type, reject unknown kinds, and recurse with a strictly decreasing, tested depth", ruleCondTables},
+			{"cond-context", "each condition's Match consults exactly the match-context method its kind prescribes; the runtime adapters do not swap calling/current; every allowing exit of checkScope is gated by the account match and by the context test of its scope", ruleCondContext},
+		},
+		NotCovered: "boolean algebra of And/Or/Not, group lookup data, the calling-hash shortcut's interaction with dynamic scripts",
+	})
+	register(&PropertySpec{
 		ID: "C07",
 		Rules: []RuleSpec{
 			{"admit-dominators", "every admission check of verifyAndPoolTx (script, expiry, VUB window, policy, size, network fee, on-chain/conflict record, witnesses with the remaining fee, attributes) gates pool.Add on every CFG path", ruleAdmitDominators},
